@@ -463,7 +463,7 @@ def io_model(rng, id_styles=None, with_groups=True, finite=False):
     with __import__("warnings").catch_warnings():
         __import__("warnings").simplefilter("ignore")
         model = build(rec)
-    model.id = rng.choice(["gen_model", "m-1", "model.v2", "M"])
+    model.id = rng.choice(["gen_model", "M", "model_2", "gen_model", "iGEN123", "m-1", "model.v2"])
     if rng.random() < 0.6:
         model.name = rng.choice(["A generated model", "Modèle", "x"])
     if rng.random() < 0.5:
